@@ -3038,10 +3038,14 @@ class Partitions(Expr):
 
     def _simplify_down(self):
         from dask.dataframe.dask_expr import SetIndexBlockwise
+        from dask.dataframe.dask_expr._indexing import LocBase
         from dask.dataframe.tseries.resample import ResampleAggregation
 
+        # ``loc`` expressions only keep the partitions that overlap the indexer:
+        # their i-th output partition is not the i-th partition of their input
         if isinstance(self.frame, Blockwise) and not isinstance(
-            self.frame, (BlockwiseIO, Fused, SetIndexBlockwise, ResampleAggregation)
+            self.frame,
+            (BlockwiseIO, Fused, SetIndexBlockwise, ResampleAggregation, LocBase),
         ):
             operands = [
                 (
